@@ -689,3 +689,349 @@ package fpgo
 //@   ensures unchanged: unchanged(list)
 //@ func GroupBy loop 0
 //@   invariant fresh: fresh(result) && forallv(x, freshOrNil(result[x]))
+
+// ===================================================================================================
+// C06 - LinkedListQueue is a deque for every history: representation invariant + abstract transitions
+//
+// Ghost state (existential witnesses of the invariant, passed by name between the methods):
+//   nodes, lo : the list is nodes[lo .. lo+count)          pn, plo : the free list is pn[plo .. plo+nodeCount)
+//   st[r]     : 1 = r is in the list, 2 = r is in the free list, 3 = r is being released, else not referenced
+//   ix[r]     : the index of r in nodes / pn (makes both sequences injective)
+// The abstract deque is  *nodes[lo+i].Val  for i in [0,count).
+
+//@ define LQ_LIST(nodes, lo, hi, st, ix) = forall(j, lo, hi, nodes[j] != nil && st[nodes[j]] == 1 && ix[nodes[j]] == j && nodes[j].Val != nil && (j+1 < hi ==> nodes[j].Next == nodes[j+1]) && (j > lo ==> nodes[j].Prev == nodes[j-1]))
+//@ define LQ_ENDS(q, nodes, lo) = q.count >= 0 && (q.count == 0 ==> q.first == nil && q.last == nil) && (q.count > 0 ==> q.first == nodes[lo] && q.last == nodes[lo+q.count-1] && nodes[lo].Prev == nil && nodes[lo+q.count-1].Next == nil)
+//@ define LQ_FREE(pn, plo, phi, st, ix) = forall(j, plo, phi, pn[j] != nil && st[pn[j]] == 2 && ix[pn[j]] == j && (j+1 < phi ==> pn[j].Next == pn[j+1]))
+//@ define LQ_FREEENDS(q, pn, plo) = q.nodeCount >= 0 && (q.nodeCount == 0 ==> q.nodePoolFirst == nil) && (q.nodeCount > 0 ==> q.nodePoolFirst == pn[plo] && pn[plo+q.nodeCount-1].Next == nil)
+//@ define LQ_WF(q, nodes, lo, pn, plo, st, ix) = LQ_ENDS(q, nodes, lo) && LQ_LIST(nodes, lo, lo+q.count, st, ix) && LQ_FREEENDS(q, pn, plo) && LQ_FREE(pn, plo, plo+q.nodeCount, st, ix)
+//@ define LQ_SAME(nodes, lo, hi) = forall(j, lo, hi, nodes[j] == old(nodes[j]) && nodes[j].Val == old(nodes[j].Val) && *nodes[j].Val == old(*nodes[j].Val))
+//@ define LQ_LISTFIELDS(q) = q.count == old(q.count) && q.first == old(q.first) && q.last == old(q.last)
+//@ define LQ_EXISTED(nodes, lo, hi, pn, plo, phi) = forall(j, lo, hi, birth(nodes[j]) <= 0 && birth(nodes[j].Val) <= 0) && forall(j, plo, phi, birth(pn[j]) <= 0)
+//@ define POOLINV_DoublyListItem(p) = p.Next == nil && p.Prev == nil && p.Val == nil
+
+//@ func (LinkedListQueue).generateNode
+//@   prop C06
+//@   opt poolfresh=st
+//@   modifies q, ite(q.nodeCount > 0, pn[plo], nil)
+//@   ghost nodes (Array Int Ref) of q.first
+//@   ghost lo Int
+//@   ghost pn (Array Int Ref) of q.first
+//@   ghost plo Int
+//@   ghost st (Array Ref Int)
+//@   ghost ix (Array Ref Int)
+//@   requires q != nil && LQ_FREEENDS(q, pn, plo) && LQ_FREE(pn, plo, plo+q.nodeCount, st, ix)
+//@   assume forall(j, plo, plo+q.nodeCount, birth(pn[j]) <= 0)
+//@   ghostset st = ite(old(q.nodeCount) > 0, store(st, r0, 0), st)
+//@   ghostset plo = ite(old(q.nodeCount) > 0, plo+1, plo)
+//@   ensures node: r0 != nil && st[r0] == 0 && r0.Next == nil && r0.Prev == nil
+//@   ensures popped: old(q.nodeCount) > 0 ==> r0 == old(pn[plo]) && old(st[r0]) == 2
+//@   ensures unreferenced: old(q.nodeCount) == 0 ==> old(st[r0]) == 0
+//@   ensures other-status: forallr(r, r != r0 ==> st[r] == old(st[r]))
+//@   ensures ghosts: nodes == old(nodes) && lo == old(lo) && pn == old(pn) && ix == old(ix)
+//@   ensures list-fields: LQ_LISTFIELDS(q)
+//@   ensures free-ends: LQ_FREEENDS(q, pn, plo)
+//@   ensures free: LQ_FREE(pn, plo, plo+q.nodeCount, st, ix)
+
+//@ func (LinkedListQueue).recycleNode
+//@   prop C06
+//@   modifies q, node
+//@   ghost nodes (Array Int Ref) of q.first
+//@   ghost lo Int
+//@   ghost pn (Array Int Ref) of q.first
+//@   ghost plo Int
+//@   ghost st (Array Ref Int)
+//@   ghost ix (Array Ref Int)
+//@   requires q != nil && node != nil && st[node] != 2 && LQ_FREEENDS(q, pn, plo) && LQ_FREE(pn, plo, plo+q.nodeCount, st, ix)
+//@   assume forall(j, plo, plo+q.nodeCount, birth(pn[j]) <= 0)
+//@   ghostset plo = plo-1
+//@   ghostset pn = store(pn, plo, node)
+//@   ghostset st = store(st, node, 2)
+//@   ghostset ix = store(ix, node, plo)
+//@   ensures pushed: q.nodeCount == old(q.nodeCount)+1 && plo == old(plo)-1 && pn == store(old(pn), plo, node) && st == store(old(st), node, 2) && ix == store(old(ix), node, plo)
+//@   ensures cleared: node.Val == nil && node.Prev == nil
+//@   ensures ghosts: nodes == old(nodes) && lo == old(lo)
+//@   ensures list-fields: LQ_LISTFIELDS(q)
+//@   ensures free-ends: LQ_FREEENDS(q, pn, plo)
+//@   ensures free: LQ_FREE(pn, plo, plo+q.nodeCount, st, ix)
+
+//@ func (LinkedListQueue).Offer
+//@   prop C06
+//@   opt frame=off
+//@   modifies all
+//@   ghost nodes (Array Int Ref) of q.first
+//@   ghost lo Int
+//@   ghost pn (Array Int Ref) of q.first
+//@   ghost plo Int
+//@   ghost st (Array Ref Int)
+//@   ghost ix (Array Ref Int)
+//@   requires q != nil && LQ_WF(q, nodes, lo, pn, plo, st, ix)
+//@   assume LQ_EXISTED(nodes, lo, lo+q.count, pn, plo, plo+q.nodeCount)
+//@   ghostset nodes = store(nodes, lo+q.count-1, q.last)
+//@   ghostset st = store(st, q.last, 1)
+//@   ghostset ix = store(ix, q.last, lo+q.count-1)
+//@   ensures result: r0 == nil && q.count == old(q.count)+1 && lo == old(lo)
+//@   ensures appended: *nodes[lo+q.count-1].Val == val
+//@   ensures others: LQ_SAME(nodes, lo, lo+q.count-1)
+//@   ensures wf-ends: LQ_ENDS(q, nodes, lo)
+//@   ensures wf-list: LQ_LIST(nodes, lo, lo+q.count, st, ix)
+//@   ensures wf-free-ends: LQ_FREEENDS(q, pn, plo)
+//@   ensures wf-free: LQ_FREE(pn, plo, plo+q.nodeCount, st, ix)
+
+//@ func (LinkedListQueue).Unshift
+//@   prop C06
+//@   opt frame=off
+//@   modifies all
+//@   ghost nodes (Array Int Ref) of q.first
+//@   ghost lo Int
+//@   ghost pn (Array Int Ref) of q.first
+//@   ghost plo Int
+//@   ghost st (Array Ref Int)
+//@   ghost ix (Array Ref Int)
+//@   requires q != nil && LQ_WF(q, nodes, lo, pn, plo, st, ix)
+//@   assume LQ_EXISTED(nodes, lo, lo+q.count, pn, plo, plo+q.nodeCount)
+//@   ghostset lo = lo-1
+//@   ghostset nodes = store(nodes, lo, q.first)
+//@   ghostset st = store(st, q.first, 1)
+//@   ghostset ix = store(ix, q.first, lo)
+//@   ensures result: r0 == nil && q.count == old(q.count)+1 && lo == old(lo)-1
+//@   ensures prepended: *nodes[lo].Val == val
+//@   ensures others: LQ_SAME(nodes, lo+1, lo+q.count)
+//@   ensures wf-ends: LQ_ENDS(q, nodes, lo)
+//@   ensures wf-list: LQ_LIST(nodes, lo, lo+q.count, st, ix)
+//@   ensures wf-free-ends: LQ_FREEENDS(q, pn, plo)
+//@   ensures wf-free: LQ_FREE(pn, plo, plo+q.nodeCount, st, ix)
+
+//@ func (LinkedListQueue).Shift
+//@   prop C06
+//@   opt frame=off
+//@   modifies all
+//@   ghost nodes (Array Int Ref) of q.first
+//@   ghost lo Int
+//@   ghost pn (Array Int Ref) of q.first
+//@   ghost plo Int
+//@   ghost st (Array Ref Int)
+//@   ghost ix (Array Ref Int)
+//@   requires q != nil && LQ_WF(q, nodes, lo, pn, plo, st, ix)
+//@   assume LQ_EXISTED(nodes, lo, lo+q.count, pn, plo, plo+q.nodeCount)
+//@   ghostset lo = ite(old(q.count) > 0, lo+1, lo)
+//@   ensures empty: old(q.count) == 0 ==> r1 == ErrQueueIsEmpty && q.count == 0 && lo == old(lo)
+//@   ensures head: old(q.count) > 0 ==> r1 == nil && r0 == old(*nodes[lo].Val) && q.count == old(q.count)-1 && lo == old(lo)+1
+//@   ensures others: nodes == old(nodes) && LQ_SAME(nodes, lo, lo+q.count)
+//@   ensures wf-ends: LQ_ENDS(q, nodes, lo)
+//@   ensures wf-list: LQ_LIST(nodes, lo, lo+q.count, st, ix)
+//@   ensures wf-free-ends: LQ_FREEENDS(q, pn, plo)
+//@   ensures wf-free: LQ_FREE(pn, plo, plo+q.nodeCount, st, ix)
+
+//@ func (LinkedListQueue).Pop
+//@   prop C06
+//@   opt frame=off
+//@   modifies all
+//@   ghost nodes (Array Int Ref) of q.first
+//@   ghost lo Int
+//@   ghost pn (Array Int Ref) of q.first
+//@   ghost plo Int
+//@   ghost st (Array Ref Int)
+//@   ghost ix (Array Ref Int)
+//@   requires q != nil && LQ_WF(q, nodes, lo, pn, plo, st, ix)
+//@   assume LQ_EXISTED(nodes, lo, lo+q.count, pn, plo, plo+q.nodeCount)
+//@   ensures empty: old(q.count) == 0 ==> r1 == ErrStackIsEmpty && q.count == 0
+//@   ensures tail: old(q.count) > 0 ==> r1 == nil && r0 == old(*nodes[lo+q.count-1].Val) && q.count == old(q.count)-1
+//@   ensures others: nodes == old(nodes) && lo == old(lo) && LQ_SAME(nodes, lo, lo+q.count)
+//@   ensures wf-ends: LQ_ENDS(q, nodes, lo)
+//@   ensures wf-list: LQ_LIST(nodes, lo, lo+q.count, st, ix)
+//@   ensures wf-free-ends: LQ_FREEENDS(q, pn, plo)
+//@   ensures wf-free: LQ_FREE(pn, plo, plo+q.nodeCount, st, ix)
+
+//@ func (LinkedListQueue).Peek
+//@   prop C06
+//@   pure
+//@   ghost nodes (Array Int Ref) of q.first
+//@   ghost lo Int
+//@   ghost pn (Array Int Ref) of q.first
+//@   ghost plo Int
+//@   ghost st (Array Ref Int)
+//@   ghost ix (Array Ref Int)
+//@   requires q != nil && LQ_WF(q, nodes, lo, pn, plo, st, ix)
+//@   assume LQ_EXISTED(nodes, lo, lo+q.count, pn, plo, plo+q.nodeCount)
+//@   ensures empty: q.count == 0 ==> r1 == ErrQueueIsEmpty
+//@   ensures head: q.count > 0 ==> r1 == nil && r0 == *nodes[lo].Val
+
+//@ func (LinkedListQueue).Count
+//@   prop C06
+//@   pure
+//@   requires q != nil
+//@   ensures def: r0 == q.count
+
+// forwarders: same transitions as the method they delegate to
+//@ func (LinkedListQueue).Put
+//@   prop C06
+//@   opt frame=off
+//@   modifies all
+//@   ghost nodes (Array Int Ref) of q.first
+//@   ghost lo Int
+//@   ghost pn (Array Int Ref) of q.first
+//@   ghost plo Int
+//@   ghost st (Array Ref Int)
+//@   ghost ix (Array Ref Int)
+//@   requires q != nil && LQ_WF(q, nodes, lo, pn, plo, st, ix)
+//@   assume LQ_EXISTED(nodes, lo, lo+q.count, pn, plo, plo+q.nodeCount)
+//@   ensures result: r0 == nil && q.count == old(q.count)+1 && lo == old(lo)
+//@   ensures appended: *nodes[lo+q.count-1].Val == val
+//@   ensures others: LQ_SAME(nodes, lo, lo+q.count-1)
+//@   ensures wf-ends: LQ_ENDS(q, nodes, lo)
+//@   ensures wf-list: LQ_LIST(nodes, lo, lo+q.count, st, ix)
+//@   ensures wf-free-ends: LQ_FREEENDS(q, pn, plo)
+//@   ensures wf-free: LQ_FREE(pn, plo, plo+q.nodeCount, st, ix)
+
+//@ func (LinkedListQueue).Push
+//@   prop C06
+//@   opt frame=off
+//@   modifies all
+//@   ghost nodes (Array Int Ref) of q.first
+//@   ghost lo Int
+//@   ghost pn (Array Int Ref) of q.first
+//@   ghost plo Int
+//@   ghost st (Array Ref Int)
+//@   ghost ix (Array Ref Int)
+//@   requires q != nil && LQ_WF(q, nodes, lo, pn, plo, st, ix)
+//@   assume LQ_EXISTED(nodes, lo, lo+q.count, pn, plo, plo+q.nodeCount)
+//@   ensures result: r0 == nil && q.count == old(q.count)+1 && lo == old(lo)
+//@   ensures appended: *nodes[lo+q.count-1].Val == val
+//@   ensures others: LQ_SAME(nodes, lo, lo+q.count-1)
+//@   ensures wf-ends: LQ_ENDS(q, nodes, lo)
+//@   ensures wf-list: LQ_LIST(nodes, lo, lo+q.count, st, ix)
+//@   ensures wf-free-ends: LQ_FREEENDS(q, pn, plo)
+//@   ensures wf-free: LQ_FREE(pn, plo, plo+q.nodeCount, st, ix)
+
+//@ func (LinkedListQueue).Poll
+//@   prop C06
+//@   opt frame=off
+//@   modifies all
+//@   ghost nodes (Array Int Ref) of q.first
+//@   ghost lo Int
+//@   ghost pn (Array Int Ref) of q.first
+//@   ghost plo Int
+//@   ghost st (Array Ref Int)
+//@   ghost ix (Array Ref Int)
+//@   requires q != nil && LQ_WF(q, nodes, lo, pn, plo, st, ix)
+//@   assume LQ_EXISTED(nodes, lo, lo+q.count, pn, plo, plo+q.nodeCount)
+//@   ensures empty: old(q.count) == 0 ==> r1 == ErrQueueIsEmpty && q.count == 0 && lo == old(lo)
+//@   ensures head: old(q.count) > 0 ==> r1 == nil && r0 == old(*nodes[lo].Val) && q.count == old(q.count)-1 && lo == old(lo)+1
+//@   ensures others: nodes == old(nodes) && LQ_SAME(nodes, lo, lo+q.count)
+//@   ensures wf-ends: LQ_ENDS(q, nodes, lo)
+//@   ensures wf-list: LQ_LIST(nodes, lo, lo+q.count, st, ix)
+//@   ensures wf-free-ends: LQ_FREEENDS(q, pn, plo)
+//@   ensures wf-free: LQ_FREE(pn, plo, plo+q.nodeCount, st, ix)
+
+//@ func (LinkedListQueue).Take
+//@   prop C06
+//@   opt frame=off
+//@   modifies all
+//@   ghost nodes (Array Int Ref) of q.first
+//@   ghost lo Int
+//@   ghost pn (Array Int Ref) of q.first
+//@   ghost plo Int
+//@   ghost st (Array Ref Int)
+//@   ghost ix (Array Ref Int)
+//@   requires q != nil && LQ_WF(q, nodes, lo, pn, plo, st, ix)
+//@   assume LQ_EXISTED(nodes, lo, lo+q.count, pn, plo, plo+q.nodeCount)
+//@   ensures empty: old(q.count) == 0 ==> r1 == ErrQueueIsEmpty && q.count == 0 && lo == old(lo)
+//@   ensures head: old(q.count) > 0 ==> r1 == nil && r0 == old(*nodes[lo].Val) && q.count == old(q.count)-1 && lo == old(lo)+1
+//@   ensures others: nodes == old(nodes) && LQ_SAME(nodes, lo, lo+q.count)
+//@   ensures wf-ends: LQ_ENDS(q, nodes, lo)
+//@   ensures wf-list: LQ_LIST(nodes, lo, lo+q.count, st, ix)
+//@   ensures wf-free-ends: LQ_FREEENDS(q, pn, plo)
+//@   ensures wf-free: LQ_FREE(pn, plo, plo+q.nodeCount, st, ix)
+
+// a new queue is empty: count == 0 and no node referenced, which makes the invariant hold for any ghost witnesses
+//@ func NewLinkedListQueue
+//@   prop C06
+//@   ensures new: r0 != nil && fresh(r0) && r0.count == 0 && r0.nodeCount == 0 && r0.first == nil && r0.last == nil && r0.nodePoolFirst == nil
+
+//@ func (LinkedListQueue).Clear
+//@   prop C06
+//@   opt frame=off
+//@   modifies all
+//@   ghost nodes (Array Int Ref) of q.first
+//@   ghost lo Int
+//@   ghost pn (Array Int Ref) of q.first
+//@   ghost plo Int
+//@   ghost st (Array Ref Int)
+//@   ghost ix (Array Ref Int)
+//@   requires q != nil && LQ_WF(q, nodes, lo, pn, plo, st, ix)
+//@   assume LQ_EXISTED(nodes, lo, lo+q.count, pn, plo, plo+q.nodeCount)
+//@   ghostset pn = old(nodes)
+//@   ghostset plo = old(lo)
+//@   ghostset st = lamr(r, ite(old(st)[r] == 1, 2, ite(old(st)[r] == 2, 0, old(st)[r])))
+//@   ensures empty: q.count == 0 && q.nodeCount == old(q.count)
+//@   ensures wf-ends: LQ_ENDS(q, nodes, lo)
+//@   ensures wf-list: LQ_LIST(nodes, lo, lo+q.count, st, ix)
+//@   ensures wf-free-ends: LQ_FREEENDS(q, pn, plo)
+//@   ensures wf-free: LQ_FREE(pn, plo, plo+q.nodeCount, st, ix)
+
+// putAllIntoPool is inlined into its two callers; "keep" (a ghost of the caller) is the number of free nodes that stay.
+//@ func (LinkedListQueue).putAllIntoPool
+//@   prop C06
+//@   opt inline=true
+//@ func (LinkedListQueue).putAllIntoPool loop 0
+//@   invariant cursor: first == nil || (st[first] == 2 && plo+keep <= ix[first] && ix[first] < plo+old(q.nodeCount) && pn[ix[first]] == first)
+//@   invariant chain: forall(j, plo+keep, plo+old(q.nodeCount), first != nil && j >= ix[first] ==> pn[j] != nil && st[pn[j]] == 2 && ix[pn[j]] == j && (j+1 < plo+old(q.nodeCount) ==> pn[j].Next == pn[j+1]) && (j+1 == plo+old(q.nodeCount) ==> pn[j].Next == nil))
+//@   invariant kept: LQ_FREE(pn, plo, plo+keep, st, ix)
+//@   invariant list: LQ_ENDS(q, nodes, lo) && LQ_LIST(nodes, lo, lo+q.count, st, ix) && LQ_SAME(nodes, lo, lo+q.count)
+
+//@ func (LinkedListQueue).ClearNodePool
+//@   prop C06
+//@   opt frame=off
+//@   modifies all
+//@   ghost nodes (Array Int Ref) of q.first
+//@   ghost lo Int
+//@   ghost pn (Array Int Ref) of q.first
+//@   ghost plo Int
+//@   ghost st (Array Ref Int)
+//@   ghost ix (Array Ref Int)
+//@   ghost keep Int
+//@   ghostinit keep = 0
+//@   requires q != nil && LQ_WF(q, nodes, lo, pn, plo, st, ix)
+//@   assume LQ_EXISTED(nodes, lo, lo+q.count, pn, plo, plo+q.nodeCount)
+//@   ghostset st = lamr(r, ite(old(st)[r] == 2, 0, old(st)[r]))
+//@   ensures emptied: q.nodeCount == 0 && LQ_LISTFIELDS(q)
+//@   ensures others: nodes == old(nodes) && lo == old(lo) && LQ_SAME(nodes, lo, lo+q.count)
+//@   ensures wf-ends: LQ_ENDS(q, nodes, lo)
+//@   ensures wf-list: LQ_LIST(nodes, lo, lo+q.count, st, ix)
+//@   ensures wf-free-ends: LQ_FREEENDS(q, pn, plo)
+//@   ensures wf-free: LQ_FREE(pn, plo, plo+q.nodeCount, st, ix)
+
+//@ func (LinkedListQueue).KeepNodePoolCount
+//@   prop C06
+//@   opt frame=off
+//@   opt poolfresh=st
+//@   modifies all
+//@   ghost nodes (Array Int Ref) of q.first
+//@   ghost lo Int
+//@   ghost pn (Array Int Ref) of q.first
+//@   ghost plo Int
+//@   ghost st (Array Ref Int)
+//@   ghost ix (Array Ref Int)
+//@   ghost keep Int
+//@   ghostinit keep = ite(n <= 0, 0, n)
+//@   requires q != nil && LQ_WF(q, nodes, lo, pn, plo, st, ix)
+//@   assume LQ_EXISTED(nodes, lo, lo+q.count, pn, plo, plo+q.nodeCount)
+//@   ghostset st = lamr(r, ite(st[r] == 2 && ix[r] >= plo+keep, 0, st[r]))
+//@   ensures sized: q.nodeCount == ite(old(n) <= 0, 0, old(n)) && LQ_LISTFIELDS(q)
+//@   ensures others: nodes == old(nodes) && lo == old(lo) && LQ_SAME(nodes, lo, lo+q.count)
+//@   ensures wf-ends: LQ_ENDS(q, nodes, lo)
+//@   ensures wf-list: LQ_LIST(nodes, lo, lo+q.count, st, ix)
+//@   ensures wf-free-ends: LQ_FREEENDS(q, pn, plo)
+//@   ensures wf-free: LQ_FREE(pn, plo, plo+q.nodeCount, st, ix)
+//@ func (LinkedListQueue).KeepNodePoolCount loop 0
+//@   ghostbefore pn = store(pn, plo, last)
+//@   ghostbefore st = store(st, last, 2)
+//@   ghostbefore ix = store(ix, last, plo)
+//@   ghostset pn = store(pn, plo+old(n)-1-n, last)
+//@   ghostset st = store(st, last, 2)
+//@   ghostset ix = store(ix, last, plo+old(n)-1-n)
+//@   invariant counters: 0 <= n && n <= old(n)-1 && q.nodeCount == old(n) && keep == old(n) && q.nodePoolFirst == pn[plo] && last == pn[plo+old(n)-1-n] && last != nil
+//@   invariant kept: LQ_FREE(pn, plo, plo+old(n)-n, st, ix)
+//@   invariant link: (old(n)-n < old(q.nodeCount) ==> last.Next == pn[plo+old(n)-n]) && (old(n)-n >= old(q.nodeCount) ==> last.Next == nil)
+//@   invariant rest: forall(j, plo+old(n)-n, plo+old(q.nodeCount), pn[j] != nil && st[pn[j]] == 2 && ix[pn[j]] == j && (j+1 < plo+old(q.nodeCount) ==> pn[j].Next == pn[j+1]) && (j+1 == plo+old(q.nodeCount) ==> pn[j].Next == nil))
+//@   invariant list: LQ_ENDS(q, nodes, lo) && LQ_LIST(nodes, lo, lo+q.count, st, ix) && LQ_SAME(nodes, lo, lo+q.count) && LQ_LISTFIELDS(q) && nodes == old(nodes) && lo == old(lo)
